@@ -10,12 +10,12 @@ open StoneVerif.FeParams (TyKind)
 
 /-- what is known of the state after pass 3 on legal input -/
 structure Final (rx : String → Bool) (E : Env) (fs : List File) (st : St) : Prop where
-  j : J rx E fs st
+  inv : Inv rx E fs st
   complete : Complete fs E.nss st
 
 theorem Final.lookEq {rx E fs st} (hE : EnvOK2 E fs) (hF : Final rx E fs st) : lookOf st.aliases = aliasS rx fs := by
   funext k
-  have hA := hF.j.inv.below hE.ok
+  have hA := hF.inv.below hE.ok
   cases hs : aliasS rx fs k with
   | some t =>
     unfold aliasS at hs
@@ -63,7 +63,7 @@ theorem Final.typesEq {rx E fs st} (hE : EnvOK2 E fs) (hF : Final rx E fs st) : 
         cases hl : st.done.lookup k with
         | none => rw [hl] at this; cases this
         | some c' =>
-          have := hF.j.inv.typesBelow hE.ok hl
+          have := hF.inv.typesBelow hE.ok hl
           rw [hs'] at this
           rw [this]
       · simp [hf] at hs
@@ -71,7 +71,7 @@ theorem Final.typesEq {rx E fs st} (hE : EnvOK2 E fs) (hF : Final rx E fs st) : 
     unfold typesOf
     cases hl : st.done.lookup k with
     | none => rfl
-    | some c => rw [hF.j.inv.typesBelow hE.ok hl] at hs; cases hs
+    | some c => rw [hF.inv.typesBelow hE.ok hl] at hs; cases hs
 
 theorem Final.parentEq {rx E fs st} (hE : EnvOK2 E fs) (hF : Final rx E fs st) :
     parentIn st.done = fun k => (typeS rx fs k).bind (·.parent) := by
@@ -90,7 +90,7 @@ theorem Final.lookupDecl {rx E fs st} (hE : EnvOK2 E fs) (hF : Final rx E fs st)
   | none => rw [hl] at this; cases this
   | some c =>
     refine ⟨c, rfl, ?_⟩
-    have h1 := hF.j.inv.typesBelow hE.ok hl
+    have h1 := hF.inv.typesBelow hE.ok hl
     rw [typeS_of_lookup hE.ok (hE.ok.lookup_type hd)] at h1
     exact h1
 
@@ -310,7 +310,7 @@ theorem Final.subtypes_sub {rx E fs st} (hE : EnvOK2 E fs) (hF : Final rx E fs s
   unfold subtypesOf at h
   simp only [List.mem_map, List.mem_filter, beq_iff_eq] at h
   obtain ⟨⟨k', c⟩, ⟨hm, hpar⟩, rfl⟩ := h
-  obtain ⟨d, hd, hden⟩ := hF.j.inv.done k' c hm
+  obtain ⟨d, hd, hden⟩ := hF.inv.done k' c hm
   obtain ⟨hdecl, hname⟩ := hE.ok.type_decl hd
   unfold subtypesS
   simp only [List.mem_filterMap]
@@ -398,7 +398,7 @@ theorem enumFirst_ok {rx E fs st ns} (hE : EnvOK2 E fs) (hL : DeclsLegal rx fs) 
       rw [hden] at hden'
       cases hden'
       obtain ⟨hsubs, fields, hopt, hcheck, _⟩ := enumLegal_parts henum he
-      have hA := hF.j.inv.below hE.ok
+      have hA := hF.inv.below hE.ok
       obtain ⟨fields', hf'⟩ := subtypeFields_ok hE hA hsubs
       have := subtypeFields_denote hE.ok hf'
       rw [hopt] at this
@@ -478,7 +478,7 @@ theorem pass6Nss_names {rx E A} : ∀ {nss : List String} {L}, pass6Nss rx E A n
 /-- **legal declarations are compiled**: on a built environment, passes 3 - 6 and the assembly succeed -/
 theorem compileEnv_ok {rx E fs} (hE : EnvOK2 E fs) (hL : DeclsLegal rx fs) : ∃ api, compileEnv rx E = .ok api := by
   obtain ⟨st, h3, hJ, hc⟩ := pass3_ok hE hL
-  have hF : Final rx E fs st := ⟨hJ, hc⟩
+  have hF : Final rx E fs st := ⟨hJ.inv, hc⟩
   have h4 := pass4_ok hE hL hF (l := nsTypeDecls E) (fun p hp => nsTypeDecls_mem hE.ok.files hp)
   obtain ⟨en, h5⟩ := pass5_ok hE hL hF (nss := E.nss) (en := []) (fun _ h => h) (by intro k v hm; simp at hm)
   obtain ⟨L, h6⟩ := pass6_ok hE hL (hJ.inv.below hE.ok) E.nss
